@@ -401,6 +401,18 @@ def _prediction(S, nf, tag, X, theta):
     return list(P.terms.values())[0], P, rest
 
 
+def _target_side_frozen(S, nf, tag, rest, frozen_roles):
+    """The property's gradient clause: the regression target carries no gradient to target networks, target policies and the bootstrap inputs
+    (successor observation, successor action).  Decided on the gradient-dependence sets of the normal form (cleared by stop_gradient, kept by
+    every differentiable operation): positive evidence is a role that reaches the target side differentiably."""
+    g = nf.gdeps_of(rest)
+    leak = sorted(g & set(frozen_roles))
+    S.ob("R4-stop-gradient", f"{tag}:target-side-frozen", not leak,
+         f"target side depends differentiably on {sorted(g)}" if leak else f"no gradient path from the target side to {sorted(frozen_roles)}",
+         f"the regression target depends differentiably on {leak} (stop_gradient missing on the bootstrap): the gradient of the loss with respect to "
+         f"target networks / bootstrap inputs is not zero", read=[rest])
+
+
 def target_identity(T: Poly, gamma="gamma"):
     """Check T == R + (1-D)*gamma*B ; return (ok, B, reason)."""
     R, D = ROLE["R"], ROLE["D"]
@@ -558,6 +570,7 @@ def _analyse_site(S, nf, spec, params, theta, tag, s, Ts):
     if pr is None:
         return
     sign, P, rest = pr
+    _target_side_frozen(S, nf, tag, rest, set(spec["targets"]) | {"next_action", ROLE["N"]} | ({"policy"} if spec.get("entropy") else set()))
     T = nf.unfreeze(rest.scale(-1) if sign == 1 else rest)
     Pn = P.scale(sign)
     Ts.append(T)
@@ -750,9 +763,13 @@ def _td7(ck, repo, nf):
     if any(isinstance(a, ast.Starred) for a in s["app"].args) or any(k.arg is None for k in s["app"].keywords) or len(s["app"].args) > len(lp) or s["argnums"][0] >= len(lp):
         raise AnalysisError(f"{q}: application `{short(s['app'], 80)}` of the differentiated loss cannot be bound to its signature (unrecognised form)")
     lenv = {}
+    theta = lp[s["argnums"][0]]
     for k, a in bind_call(lfn, s["app"]).items():        # positional and keyword arguments, by the loss's signature
         lenv[k] = nf.poly(a, sc, at)
-    theta = lp[s["argnums"][0]]
+        if k != theta:
+            # only the argument at argnums is differentiated: whatever the caller computed for the other arguments is a constant of the
+            # differentiated function (the TD7 target is built outside of it)
+            lenv[k] = nf.freeze(lenv[k])
     ck.need(theta in lenv, f"{q}: differentiated argument `{theta}` is not passed")
     ret = _ret(nf, lq, lenv)
     Lp = _loss_of(nf, ret)
@@ -763,7 +780,7 @@ def _td7(ck, repo, nf):
     Ts = []
     for i, x in enumerate(rs):
         tag = f"site{i}"
-        dtxt = x["delta"].canon() if x["delta"] is not None else None
+        dtxt = nf.unfreeze(x["delta"]).canon() if x["delta"] is not None else None
         kind = _kind(S, nf, x, theta_atom, tag)
         if kind is None:
             continue
@@ -778,6 +795,7 @@ def _td7(ck, repo, nf):
         if pr is None:
             continue
         sign, P, rest = pr
+        _target_side_frozen(S, nf, tag, rest, {"critic_target", "fixed_embedding_target", "next_action", ROLE["N"]})
         T = nf.unfreeze(rest.scale(-1) if sign == 1 else rest)
         Ts.append(T)
         pd = nf.deps_of(P)
@@ -846,6 +864,7 @@ def _mrq(ck, repo, nf):
         if pr is None:
             continue
         sign, P, rest = pr
+        _target_side_frozen(S, nf, tag, rest, {"q_target", "encoder_target", "next_action", ROLE["N"]})
         T = nf.unfreeze(rest.scale(-1) if sign == 1 else rest)
         # encoders are held fixed: the prediction must not depend differentiably on the encoder
         pg = set()
@@ -1197,8 +1216,14 @@ MUTANTS = [
     {"id": "c03-dq-same-head-twice", "file": "rl_blox/blox/double_qnet.py", "rule": "R2", "find": "        return jnp.minimum(self.q1(*args, **kwargs), self.q2(*args, **kwargs))", "replace": "        return jnp.minimum(self.q1(*args, **kwargs), self.q1(*args, **kwargs))"},
     {"id": "c03-td7-returned-target-unmasked", "file": "rl_blox/algorithm/td7.py", "rule": "R5", "find": "    return q_loss_value, max_abs_td_error, q_target\n", "replace": "    return q_loss_value, max_abs_td_error, reward + gamma * q_next_target\n"},
     {"id": "c03-ddpg-bootstrap-tanh", "file": _F, "rule": "R2", "find": "    q_next = jax.lax.stop_gradient(q_target_value(next_obs_act).squeeze())", "replace": "    q_next = jax.lax.stop_gradient(jnp.tanh(q_target_value(next_obs_act).squeeze()))"},
+    {"id": "c03-lap-bootstrap-not-frozen", "file": _F, "rule": "R4", "nth": 1, "find": '    q_next = jax.lax.stop_gradient(q_target(next_obs_act).squeeze())\n    q_target_value = reward + (1 - terminated) * gamma * q_next\n', "replace": '    q_next = q_target(next_obs_act).squeeze()\n    q_target_value = reward + (1 - terminated) * gamma * q_next\n'},
+    {"id": "c03-td3-bootstrap-not-frozen", "file": _F, "rule": "R4", "nth": 0, "find": '    q_next = jax.lax.stop_gradient(q_target(next_obs_act).squeeze())\n    q_target_value = reward + (1 - terminated) * gamma * q_next\n', "replace": '    q_next = q_target(next_obs_act).squeeze()\n    q_target_value = reward + (1 - terminated) * gamma * q_next\n'},
+    {"id": "c03-sac-next-value-not-frozen", "file": _F, "rule": "R4", "find": "    q_next_target = jax.lax.stop_gradient(\n        q_target(next_obs_act).squeeze() - alpha * next_log_pi\n    )\n", "replace": "    q_next_target = q_target(next_obs_act).squeeze() - jax.lax.stop_gradient(alpha * next_log_pi)\n"},
+    {"id": "c03-mrq-target-not-frozen", "file": "rl_blox/algorithm/mrq.py", "rule": "R4", "find": "    q_next = jax.lax.stop_gradient(", "replace": "    q_next = (", "accept_error": True},
 ]
 BENIGN = [
+    {"id": "c03-b-lap-whole-target-frozen", "file": _F, "nth": 1, "find": '    q_next = jax.lax.stop_gradient(q_target(next_obs_act).squeeze())\n    q_target_value = reward + (1 - terminated) * gamma * q_next\n', "replace": '    q_next = q_target(next_obs_act).squeeze()\n    q_target_value = jax.lax.stop_gradient(reward + (1 - terminated) * gamma * q_next)\n'},
+    {"id": "c03-b-td3-sg-alias", "file": _F, "nth": 0, "find": '    q_next = jax.lax.stop_gradient(q_target(next_obs_act).squeeze())\n    q_target_value = reward + (1 - terminated) * gamma * q_next\n', "replace": '    sg = jax.lax.stop_gradient\n    q_next = sg(q_target(next_obs_act)).squeeze()\n    q_target_value = reward + (1 - terminated) * gamma * q_next\n'},
     {"id": "c03-b-td3-not-done", "file": _F, "find": _TD3T, "replace": _TD3T.replace("    q_target_value = reward + (1 - terminated) * gamma * q_next", "    not_done = 1 - terminated\n    q_target_value = reward + gamma * not_done * q_next")},
     {"id": "c03-b-td3-expanded", "file": _F, "find": _TD3T, "replace": _TD3T.replace("reward + (1 - terminated) * gamma * q_next", "reward + gamma * q_next - terminated * gamma * q_next")},
     {"id": "c03-b-td3-helper", "file": _F, "find": _TD3T, "replace": "    q_next = jax.lax.stop_gradient(q_target(next_obs_act).squeeze())\n    q_target_value = _td(reward, terminated, gamma, q_next)\n    return _mse_clipped_double_q_loss(q_target_value, q, action, observation)\n\n\ndef _td(r, d, g, b):\n    return r + (1 - d) * g * b\n\n\ndef _mse"},
